@@ -52,7 +52,9 @@ Definition same_but_gc (f f' : flagset) : Prop :=
    stays a success under every larger budget, and needs no more budget than the cost it reports *)
 Definition op_budget (op : opfn) : Prop :=
   forall f a m c v, op f a m = Ok (c, v) ->
-  forall m', (m <= m' -> op f a m' = Ok (c, v)) /             (c <= m' -> op f a m' = Ok (c, v)) /             (op f a m' = Ok (c, v) \/ op f a m' = Err CostExceeded).
+  forall m', (m <= m' -> op f a m' = Ok (c, v)) /\
+             (c <= m' -> op f a m' = Ok (c, v)) /\
+             (op f a m' = Ok (c, v) \/ op f a m' = Err CostExceeded).
 
 (* C07: a more restrictive flag set can only turn a success into a failure *)
 Definition op_restrict (op : opfn) : Prop :=
